@@ -163,6 +163,7 @@ fn run_case(w: &mut World, c: &Value, ctl: &mut Ctl) -> Value {
 		}};
 	}
 
+	let unrep0 = w.unrep.get();
 	// ---- 0. a clean, refreshed start; small outputs swept away
 	w.refresh("w1", 1);
 	w.refresh("w2", 1);
@@ -442,7 +443,49 @@ fn run_case(w: &mut World, c: &Value, ctl: &mut Ctl) -> Value {
 		cleanup(w, &mut ev, &name, payer, payee, other.as_deref());
 	}
 	ev["steps"] = json!(steps);
+	ev["o"] = project(&ev, unrep0, w.unrep.get());
 	ev
+}
+
+/// the observed outcome in the vocabulary of SlateAlgebra!FinalTxBroken / StillCancellableBroken:
+/// a pure projection of what was recorded above (nothing is decided here)
+fn project(ev: &Value, unrep0: u64, unrep1: u64) -> Value {
+	let finw = s(&ev["finw"]);
+	let nv = |names: &Value, vals: &Value| -> Vec<Value> {
+		names
+			.as_array()
+			.cloned()
+			.unwrap_or_default()
+			.iter()
+			.zip(vals.as_array().cloned().unwrap_or_default().iter())
+			.map(|(n, v)| json!({"n": n, "v": v}))
+			.collect()
+	};
+	let ok = ev["fin"]["res"] == "ok";
+	let tx = if ok {
+		let ch = &ev["chain"];
+		json!({"ins": nv(&ev["tx"]["ins"], &ev["tx"]["inv"]), "outs": nv(&ev["tx"]["outs"], &ev["tx"]["outv"]),
+			"fee": ev["tx"]["fee"].as_i64().unwrap_or(-1), "nker": ev["tx"]["nker"].as_i64().unwrap_or(-1),
+			"kfeat": ev["tx"]["kfeat"].as_i64().unwrap_or(-1), "klock": ev["tx"]["klock"].as_i64().unwrap_or(-1),
+			"valid": ev["tx"]["valid"].as_bool().unwrap_or(false), "stored_equal": ev["tx"]["stored_equal"].as_bool().unwrap_or(false),
+			"chain_ok": ch["post"] == "ok" && ch["mined"] == "ok" && ch["outs_unspent"] == true && ch["ins_spent"] == true})
+	} else {
+		json!({"ins": [], "outs": [], "fee": -1, "nker": 0, "kfeat": -1, "klock": 0, "valid": false, "stored_equal": false, "chain_ok": false})
+	};
+	let known = ev["deal"]["late"] == false && ev["deal"]["amt"].as_i64().unwrap_or(-1) >= 0;
+	let deal = json!({"ins": ev["deal"]["ins"], "chg": ev["deal"]["outs"], "rout": ev["rout"],
+		"amt": ev["agreed"]["amt"].as_i64().unwrap_or(-1), "fee": ev["agreed"]["fee"].as_i64().unwrap_or(-1), "known": known});
+	let cancel: Vec<Value> = ev["cancel"]["fin"].as_array().cloned().unwrap_or_default().iter().map(|x| x["res"].clone()).collect();
+	let pending_after = ev["entries_after"]
+		.as_array()
+		.cloned()
+		.unwrap_or_default()
+		.iter()
+		.filter(|x| x["w"] == finw.as_str() && x["conf"] == false && (x["ty"] == "TxSent" || x["ty"] == "TxReceived"))
+		.count();
+	json!({"res": ev["fin"]["res"], "detail": ev["fin"]["detail"].as_str().unwrap_or(""), "tx": tx, "deal": deal, "resv": ev["resv"],
+		"cancel": cancel, "pending_after": pending_after,
+		"before": ev["before"][finw.as_str()], "after": ev["after"][finw.as_str()], "unrep": unrep1.saturating_sub(unrep0)})
 }
 
 /// cancel every pending (unconfirmed, not cancelled) entry of slate `name` in `wn`, by log id
@@ -484,6 +527,16 @@ fn cleanup(w: &mut World, ev: &mut Value, name: &str, payer: &str, payee: &str, 
 	}
 }
 
+/// TLC's JSON reader has no null: absent values become ""
+fn denull(v: &mut Value) {
+	match v {
+		Value::Null => *v = json!(""),
+		Value::Array(a) => a.iter_mut().for_each(denull),
+		Value::Object(o) => o.iter_mut().for_each(|(_, x)| denull(x)),
+		_ => {}
+	}
+}
+
 fn new_world(dir: &str) -> World {
 	let mut w = World::new(dir, U);
 	w.create_wallet("w1", false, None);
@@ -514,6 +567,7 @@ fn run_group(dir: &str, g: usize, cases: &[Value]) -> Vec<String> {
 			Err(p) => (json!({"ev": "case", "c": c, "run": format!("skip:harness-panic:{}", panic_msg(&p))}), true),
 		};
 		line["g"] = json!(g);
+		denull(&mut line);
 		out.push(line.to_string());
 		if broken {
 			let old = w.dir.clone();
